@@ -51,6 +51,10 @@ type planOp struct {
 	Content   int        `json:"content"`
 	Deliver   []delivery `json:"deliver"`    // empty = notification lost; two or more = duplicated
 	KillAfter string     `json:"kill_after"` // "", "error", "close", "dirgone": watcher lost after the op
+	// Confirm: make the loop prove that it reconciled after this operation, and log IRec if it did.
+	//   "event": hand it a notification for the config path, wait until taken, then a second one for another file
+	//            (taken only after the first was handled completely);  "tick": wait interval + 5 ms, then 20 select rounds
+	Confirm string `json:"confirm"`
 }
 
 type phase struct {
@@ -122,6 +126,38 @@ func genPlan(r *lib.Rng, i int) plan {
 		fix(&p)
 		return p
 	}
+	if i%12 == 1 || i%12 == 5 || i%12 == 7 || i%12 == 11 {
+		// the file flaps A -> B -> A inside one debounce window and the loop provably sees both steps: the second
+		// reconcile must re-arm for A, and the expiry must then find A = evaluated and stay silent.
+		p.Mode, p.Initial, p.AttachFails, p.Kind = "scripted", r.Range(0, 2), 0, "directed-flap"
+		b := (p.Initial + 1 + r.Intn(2)) % 3
+		gapMs := r.Pick(10, 20, 30, 40)
+		how := "event"
+		switch i % 12 {
+		case 1:
+			p.IntervalMs = int(gate.VerifReloadReconcileInterval / time.Millisecond)
+		case 5:
+			p.IntervalMs = 20
+		case 7:
+			p.IntervalMs, how, gapMs = 20, "tick", 0 // no notifications at all: the reconcile ticks do the work
+		default:
+			p.IntervalMs = r.Pick(20, int(gate.VerifReloadReconcileInterval/time.Millisecond))
+		}
+		k1, k2 := opKind(r.Pick(int(opWrite), int(opReplace))), opKind(r.Pick(int(opWrite), int(opReplace)))
+		ops := []planOp{{Kind: k1, Content: b, Confirm: how}, {WaitMs: gapMs, Kind: k2, Content: p.Initial, Confirm: how}}
+		if i%12 == 11 { // flap after a first real change, through a third content
+			c := 3 - p.Initial - b
+			ops = []planOp{{Kind: k1, Content: b, Confirm: how}, {WaitMs: gapMs, Kind: k2, Content: c, Confirm: how},
+				{WaitMs: r.Pick(5, 15), Kind: k1, Content: b, Confirm: how}}
+			p.Phases = []phase{{Ops: []planOp{{Kind: opReplace, Content: b, Deliver: genDeliver(r)}}}, {AlignTick: p.IntervalMs > 100, Ops: ops[1:]}}
+			p.Phases[1].Ops[0].WaitMs = 0
+		} else {
+			p.Phases = []phase{{AlignTick: p.IntervalMs > 100, Ops: ops}}
+		}
+		p.Phases = append(p.Phases, phase{Ops: []planOp{{Kind: opReplace, Content: r.Range(0, 2), Deliver: genDeliver(r)}}})
+		fix(&p)
+		return p
+	}
 	nph := r.Range(3, 5)
 	if p.IntervalMs > 100 {
 		nph = r.Range(2, 3)
@@ -150,6 +186,11 @@ func genPlan(r *lib.Rng, i int) plan {
 			o.Deliver = genDeliver(r)
 			if r.Chance(1, 12) {
 				o.KillAfter = r.PickS("error", "close", "dirgone")
+			} else if r.Chance(1, 3) {
+				o.Confirm = "event"
+				if p.IntervalMs <= 20 && r.Bool() {
+					o.Confirm = "tick"
+				}
 			}
 			phs.Ops = append(phs.Ops, o)
 		}
@@ -498,6 +539,30 @@ func runScenario(p plan, seed uint64) (res result) {
 		return true
 	}
 
+	// confirm: true only if the loop has certainly run reconcile() since the operation (see planOp.Confirm)
+	taken := func(w *fakeWatcher, e fsnotify.Event) bool {
+		if w == nil || !w.offer(e) {
+			return false
+		}
+		for t := time.Now(); time.Since(t) < 300*time.Millisecond; time.Sleep(100 * time.Microsecond) {
+			if w.drained() {
+				return true
+			}
+		}
+		return false
+	}
+	confirm := func(o planOp) bool {
+		switch o.Confirm {
+		case "event":
+			w := current()
+			return taken(w, evFor(o, false)) && taken(w, fsnotify.Event{Name: filepath.Join(dir, "verif-sentinel"), Op: fsnotify.Chmod}) && current() == w
+		case "tick":
+			time.Sleep(interval + 5*time.Millisecond)
+			return drain()
+		}
+		return false
+	}
+
 	done := make(chan struct{})
 	go func() {
 		defer close(done)
@@ -541,6 +606,11 @@ func runScenario(p plan, seed uint64) (res result) {
 					if w := current(); w != nil {
 						w.kill(o.KillAfter, dir)
 					}
+				}
+				if o.Confirm != "" && confirm(o) {
+					mu.Lock()
+					add(logItem{Kind: "rec"})
+					mu.Unlock()
 				}
 			}
 			// Quiet point.  Wall-clock alone is not enough on a loaded machine (the loop goroutine was observed
@@ -606,6 +676,8 @@ func itemTerm(it logItem) string {
 		}
 	case "cb":
 		return "ICb " + fpTerm(it.Content)
+	case "rec":
+		return "IRec"
 	default:
 		return "IQuiet"
 	}
@@ -616,9 +688,9 @@ func main() {
 	rng := lib.NewRng(f.Seed)
 	out := lib.NewOut("C38", f)
 	out.Imports = "From Verif Require Import Model.Reload.\n"
-	out.Rule = "scenarios of 2-5 bursts (1-5 file operations each: in-place write, rename-replace, delete, re-create; contents from a 3-letter alphabet so A-B-A is frequent; waits 0-140 ms around the 100 ms debounce) on a real directory under /tmp; every operation's notification is lost (40%), delivered, duplicated, late (5-500 ms) or for another file; watcher killed by error/close/dir-removed with 0-3 failing re-attaches; reconcile interval 20 ms (3/4) or the production 250 ms (1/4); watcher scripted (2/3) or real fsnotify filtered through the same faults (1/3); 2 in 12 scenarios are the directed shapes of finding C38-1; each burst is followed by a quiet point: a gap of 3 x (interval + 100 ms debounce), then the loop must take 20 sentinel notifications (for a file it ignores), 150 ms, 20 more - so that every timer due has been served even if the loop goroutine was stalled. distinct = distinct logs; non-trivial = some burst has >= 2 operations and some notification was lost, duplicated or late"
+	out.Rule = "scenarios of 2-5 bursts (1-5 file operations each: in-place write, rename-replace, delete, re-create; contents from a 3-letter alphabet so A-B-A is frequent; waits 0-140 ms around the 100 ms debounce) on a real directory under /tmp; every operation's notification is lost (40%), delivered, duplicated, late (5-500 ms) or for another file; watcher killed by error/close/dir-removed with 0-3 failing re-attaches; reconcile interval 20 ms (3/4) or the production 250 ms (1/4); watcher scripted (2/3) or real fsnotify filtered through the same faults (1/3); 2 in 12 scenarios are the directed shapes of finding C38-1, 4 in 12 are directed flaps A->B->A (or through a third content) 10-40 ms apart inside one debounce window in which the loop is made to prove each reconcile (IRec: a notification for the config path taken and followed by a second taken one, or interval+5 ms and 20 select rounds when no notification is sent), at both intervals; a third of the operations of random bursts carry the same proof; each burst is followed by a quiet point: a gap of 3 x (interval + 100 ms debounce), then the loop must take 20 sentinel notifications (for a file it ignores), 150 ms, 20 more - so that every timer due has been served even if the loop goroutine was stalled. distinct = distinct logs; non-trivial = some burst has >= 2 operations and some notification was lost, duplicated or late"
 
-	n := f.Count(48)
+	n := f.Count(56)
 	plans := make([]plan, n)
 	seeds := make([]uint64, n)
 	for i := range plans {
